@@ -3,12 +3,21 @@ use std::{collections::HashMap, io::{BufRead, Write}, sync::{Arc, Mutex, atomic:
 use watchexec::{error::{RuntimeError, CriticalError}, filter::Filterer, Config, Watchexec, ErrorHook};
 use watchexec_events::{Event, Priority, Source, Tag};
 
+/// an error payload that takes 120 ms to drop: a queue of these keeps the error hook's task busy tearing down AFTER the handler has raised
+/// its critical error and the channel has closed, before the task's result is published — the window in which another worker can notice
+/// the closed channel first
+#[derive(Debug)]
+struct SlowDrop(String);
+impl std::fmt::Display for SlowDrop { fn fmt(&self, f: &mut std::fmt::Formatter<'_>) -> std::fmt::Result { write!(f, "{}", self.0) } }
+impl std::error::Error for SlowDrop {}
+impl Drop for SlowDrop { fn drop(&mut self) { std::thread::sleep(Duration::from_millis(120)); } }
+
 #[derive(Debug)]
 struct Scripted(HashMap<String, char>);
 impl Filterer for Scripted {
     fn check_event(&self, ev: &Event, _p: Priority) -> Result<bool, RuntimeError> {
         let id = ev.metadata.get("id").and_then(|v| v.first()).cloned().unwrap_or_default();
-        match self.0.get(&id) { Some('r') => Ok(false), Some('e') => Err(RuntimeError::External(format!("inj-{id}").into())), _ => Ok(true) }
+        match self.0.get(&id) { Some('r') => Ok(false), Some('e') => Err(RuntimeError::External(format!("inj-{id}").into())), Some('E') => Err(RuntimeError::External(Box::new(SlowDrop(format!("inj-{id}"))))), _ => Ok(true) }
     }
 }
 
@@ -19,6 +28,9 @@ fn handler(cfg: Arc<Config>, beh: Arc<Vec<char>>, n: Arc<AtomicUsize>, log: Arc<
         match beh.get(i).copied().unwrap_or('i') {
             'e' => hook.elevate(),
             'c' => hook.critical(CriticalError::External("crit".into())),
+            // `C`: the same, and 300 ms later — the error being handled has been dropped (120 ms) and the hook is tearing the queue down — ANOTHER
+            // worker (the fs worker: a path that cannot be watched) has a runtime error to report
+            'C' => { let c2 = cfg.clone(); std::thread::spawn(move || { std::thread::sleep(Duration::from_millis(300)); c2.pathset(["/nonexistent-wxerr/dir/that/cannot/be/watched"]); }); hook.critical(CriticalError::External("crit".into())) }
             's' => std::thread::sleep(Duration::from_millis(30)),
             'r' => { cfg.on_error(handler(cfg.clone(), beh.clone(), n.clone(), log.clone(), "N:")); }
             _ => {}
@@ -28,6 +40,7 @@ fn handler(cfg: Arc<Config>, beh: Arc<Vec<char>>, n: Arc<AtomicUsize>, log: Arc<
 
 // case: <id> <errcap> <behaviours e.g. iisei or -> <events id:verdict,...>
 async fn run_case(cap: usize, beh: Vec<char>, events: Vec<(String, char)>) -> String {
+    let slow_teardown = beh.contains(&'C');
     let mut config = Config::default();
     config.error_channel_size = cap;
     let config = Arc::new(config);
@@ -47,6 +60,8 @@ async fn run_case(cap: usize, beh: Vec<char>, events: Vec<(String, char)>) -> St
         if wx.send_event(ev, Priority::Normal).await.is_err() { sendfail += 1; }
     }
     tokio::time::sleep(Duration::from_millis(200)).await;
+    // slow teardown scripts: give the main task up to 5 s to end
+    if slow_teardown { for _ in 0..100 { if main.is_finished() { break; } tokio::time::sleep(Duration::from_millis(50)).await; } }
     let res = if main.is_finished() { match main.await { Ok(Ok(())) => "ok".to_string(), Ok(Err(e)) => format!("err:{}", format!("{e:?}").split(|c: char| !c.is_alphanumeric()).next().unwrap_or("")), Err(_) => "join".into() } } else { main.abort(); "running".into() };
     format!("handled={} actions={} main={} sendfail={}", log.lock().unwrap().join(","), acts.lock().unwrap().join(","), res, sendfail)
 }
